@@ -629,7 +629,10 @@ def eval_case(ctx, case, want_dump=False, light=False):
         k1, k2, k3 = make_body(s1), make_body(s2), make_body(moved(s3, Tf))
         run_cf(k2, k3)
         K = run_cf(k1, k2)
-        relation(ctx, "after_far_third_body", case, A, K, A["w12"], A["w21"], ppA, per_pair_world(K), lever, (k1, k2))
+        # forces below 1e-7 come from sliver patches (depth ~1e-6) whose size is decided by the 5e-13 rounding of
+        # far-frame coordinates: ill-conditioned, not a statement of the property (thorough run, stream S: |f| = 2.5e-9)
+        if max(np.linalg.norm(A["w12"][:3]), np.linalg.norm(K["w12"][:3])) >= 1e-7 or A["flag"] != K["flag"]:
+            relation(ctx, "after_far_third_body", case, A, K, A["w12"], A["w21"], ppA, per_pair_world(K), lever, (k1, k2))
     if not light:
         # 4b. bodies used at another configuration, then moved IN PLACE (`body.body2origin_[:3, 3] += v * dt`, the way
         #     the library's own examples move bodies) to the configuration of the case and queried again on the same
